@@ -41,6 +41,24 @@ def run(ctx):
                 except Break as b:
                     ctx.breaks.append(b)
     if ok_go:
+        # concurrent requests on one file: some order must explain every reply and the final contents
+        tr2 = os.path.join(ctx.scratch, "simpleconc.txt")
+        rc, err = ctx.harness(["simpleconc", "-seed", str(ctx.seed), "-rounds", "4000" if ctx.tier == "thorough" else "500"], tr2)
+        if rc != 0:
+            ctx.breaks.append(Break("correspondence", "harness simpleconc failed to run", err[-2000:]))
+        else:
+            ctx.cov["concurrent_rounds"] = len([l for l in open(tr2).read().splitlines() if l.startswith("sround-end")])
+            if ok_drv:
+                try:
+                    n, mism, _ = ctx.driver("simple", tr2)
+                    ctx.cov["evaluations"] += n
+                    if mism:
+                        ctx.breaks.append(Break("correspondence", "a concurrent round on one file is not linearizable (or a reply differs)", "\n".join(mism[:5])))
+                        m = mism[0].split(" :: ")
+                        ctx.add_violation("simple-concurrent:" + ("not-linearizable" if "not linearizable" in m[0] else "reply"), m[0][:300],
+                                          {"how": "harness simpleconc -seed %d; drv simple" % ctx.seed, "line": m[-1][:1500]})
+                except Break as b:
+                    ctx.breaks.append(b)
         crashlib.run_small(ctx, ok_drv, "crashsimple", "C17", ["-workloads", "12", "-ops", "60", "-images", "1000"] if ctx.tier == "thorough" else ["-workloads", "3", "-ops", "40", "-images", "200"])
     vlib.finish(
         ctx, "proof",
@@ -50,5 +68,5 @@ def run(ctx):
         "request sequences over inode numbers 0..40 and huge, handles shorter than 8 bytes, offsets/sizes/counts at 0,1,2,4094..4097,8192,2^32,2^63,2^64-k, count≠len(data), "
         "appends at the current size, lookups, commits, unsupported procedures; every reply compared exactly",
         ["64-bit offsets are read as natural numbers (exact because of the explicit SumOverflows test, which the correspondence exercises at 2^64-k)"],
-        pending=["linearizability of concurrent requests on one file (lock/commit trace)"],
-        partial=["crash atomicity/durability: theorems of C01 on the WAL model + recorded-trace validation + prefix-state oracle on sampled crash images of WRITE/SETATTR workloads (recovered by simple.Recover)"])
+        pending=[],
+        partial=["concurrent requests: rounds of 2-4 simultaneous WRITE/SETATTR on one inode must be explained by some order applied by the model (sampled schedules, not a theorem)", "crash atomicity/durability: theorems of C01 on the WAL model + recorded-trace validation + prefix-state oracle on sampled crash images of WRITE/SETATTR workloads (recovered by simple.Recover)"])
